@@ -276,6 +276,9 @@ def r6(ctx):
                     continue  # for-loop desugaring over a Range
                 if cal.startswith("core::slice::index") or cal.startswith("std::ops::Deref") or "deref" in cal:
                     continue
+                if cal in ("std::mem::replace", "std::mem::swap", "std::mem::take", "core::mem::replace", "core::mem::swap", "core::mem::take") or \
+                        cal.endswith(("as std::ops::Index<I>>::index", "as std::ops::IndexMut<I>>::index_mut")):
+                    continue  # reads / writes of the places handed in: no state beyond the arguments (what is done to `values` is R18.5's matter)
                 if cal.startswith(("core::panicking::", "std::rt::begin_panic", "core::fmt::Arguments", "core::fmt::rt::")):
                     continue  # a panic (assert!/debug_assert!) is a rejection: it reads and writes no state that could make draws differ
                 bad.append(cal)
